@@ -573,7 +573,7 @@ func c23InfoZero(info cache2RuntimeInfo) bool {
 func c23Execute(c *c23Case, hangAfter time.Duration) c23Outcome {
 	loc, utcOffset := c23Zone(c.Zone)
 	r := &c23Run{c: c, loc: loc, utcOffset: utcOffset, done: map[int64]int64{}, evs: make([][]c23Ev, len(c.Threads)), evMu: make([]sync.Mutex, len(c.Threads))}
-	for q := 0; q <= 4; q++ {
+	for q := 0; q <= 24; q++ {
 		r.metrics = append(r.metrics, &format.MetricMetaValue{MetricID: int32(q), Name: fmt.Sprintf("c23_metric_%d", q)})
 	}
 	r.hh = &Handler{HandlerOptions: HandlerOptions{location: loc, utcOffset: utcOffset}}
@@ -1009,8 +1009,89 @@ func (a *c23TotalsT) add(s c23Stats) {
 
 var c23StepChoices = []int64{1, 1, 5, 15, 60, 60, 300, 900, 3600, 3600, 4 * 3600, 24 * 3600, 7 * 24 * 3600, c23Month}
 
+// c23GenChurn: many queries (= buckets) in one shard, a tiny max age so that the trimmer keeps removing single idle
+// buckets, hot queries that are re-read (cache hits) and frequent invalidations: the shape in which an
+// invalidate() walk over the bucket list races with the removal of individual buckets.
+func c23GenChurn(t *rapid.T) c23Case {
+	var c c23Case
+	c.ChunkSize = rapid.SampledFrom([]int{5, 5, 2, 3}).Draw(t, "chunkSize")
+	c.Zone = rapid.IntRange(0, 2).Draw(t, "zone")
+	step := rapid.SampledFrom([]int64{1, 15, 60, 300, 900, 3600}).Draw(t, "step")
+	c.Steps = []int64{step}
+	cs := c23ChunkSlots(c.ChunkSize, step)
+	nq := rapid.IntRange(6, 20).Draw(t, "queries")
+	// either memory pressure (the trimmer evicts the least recently used bucket again and again) or a tiny max age
+	c.Init = c23Op{K: "lim"}
+	if rapid.IntRange(0, 3).Draw(t, "pressure") != 0 {
+		c.Init.MaxSize = rapid.SampledFrom([]int{200_000, 400_000, 800_000}).Draw(t, "maxSize")
+		c.Init.Soft = c.Init.MaxSize / 2
+		c.Init.MaxAgeMs = rapid.SampledFrom([]int{0, 0, 2}).Draw(t, "maxAgeMs")
+	} else {
+		c.Init.MaxAgeMs = rapid.IntRange(1, 3).Draw(t, "maxAgeMs")
+	}
+	// one thread plays the invalidation loop: back-to-back invalidations of single chunks, so that a walk over the
+	// bucket list is in progress most of the time
+	var inv []c23Op
+	ninv := rapid.IntRange(30, 120).Draw(t, "ninv")
+	for i := 0; i < ninv; i++ {
+		op := c23Op{K: "inv"}
+		n := rapid.IntRange(1, 2).Draw(t, "ntimes")
+		for j := 0; j < n; j++ {
+			op.Times = append(op.Times, c23T{Off: rapid.Int64Range(0, int64(7*cs)*step-1).Draw(t, "invOff")})
+		}
+		inv = append(inv, op)
+		if rapid.IntRange(0, 1).Draw(t, "invPause") == 0 {
+			inv = append(inv, c23Op{K: "pause", Yields: rapid.IntRange(0, 3).Draw(t, "yields"), Us: rapid.IntRange(0, 200).Draw(t, "us")})
+		}
+	}
+	c.Threads = append(c.Threads, inv)
+	// readers: each keeps re-reading "its" query (hits), pauses longer than the max age now and then (its bucket is
+	// trimmed on its own and re-created at the tail of the list)
+	nth := rapid.IntRange(5, 10).Draw(t, "threads")
+	for th := 0; th < nth; th++ {
+		hot := rapid.IntRange(1, nq).Draw(t, "hot")
+		nops := rapid.IntRange(8, 24).Draw(t, "ops")
+		var ops []c23Op
+		for i := 0; i < nops; i++ {
+			kind := rapid.IntRange(0, 99).Draw(t, "kind")
+			switch {
+			case kind < 80:
+				op := c23Op{K: "get", Q: 1 + (hot+rapid.IntRange(0, 2).Draw(t, "hotOf3"))%nq} // three hot queries per reader
+				if rapid.IntRange(0, 5).Draw(t, "other") == 0 {
+					op.Q = rapid.IntRange(1, nq).Draw(t, "q")
+				}
+				op.Off = rapid.IntRange(0, 6*cs-1).Draw(t, "off")
+				op.Len = rapid.IntRange(1, cs+1).Draw(t, "len")
+				ops = append(ops, op)
+			default:
+				ops = append(ops, c23Op{K: "pause", Yields: rapid.IntRange(0, 10).Draw(t, "yields"), Us: rapid.IntRange(100, 5000).Draw(t, "us")})
+			}
+		}
+		c.Threads = append(c.Threads, ops)
+	}
+	c.Loads = rapid.SliceOfN(rapid.Custom(func(t *rapid.T) c23LoadBeh {
+		b := c23LoadBeh{Blocks: rapid.IntRange(1, 2).Draw(t, "blocks"), Yields: rapid.IntRange(0, 6).Draw(t, "yields")}
+		if rapid.IntRange(0, 15).Draw(t, "fail") == 0 {
+			b.Fail = true
+			b.FailPct = rapid.IntRange(0, 100).Draw(t, "failPct")
+		}
+		return b
+	}), 1, 6).Draw(t, "loads")
+	return c
+}
+
 func c23Gen() *rapid.Generator[c23Case] {
 	return rapid.Custom(func(t *rapid.T) c23Case {
+		profile := rapid.IntRange(0, 2).Draw(t, "profile") // 0: churn (1/3 of the plans), else the general mix
+		switch os.Getenv("VERIF_C23_PROFILE") { // development knob: force one profile
+		case "churn":
+			profile = 0
+		case "mix":
+			profile = 1
+		}
+		if profile == 0 {
+			return c23GenChurn(t)
+		}
 		var c c23Case
 		c.ChunkSize = rapid.SampledFrom([]int{5, 5, 1, 2, 3, 7, 0}).Draw(t, "chunkSize")
 		c.Zone = rapid.IntRange(0, 2).Draw(t, "zone")
